@@ -4,6 +4,7 @@
   (tools/translate.py); a changed shift, offset, comparison or clamp makes them fail to compile.
 -/
 import BioCantor.Gen.Kernels
+import BioCantor.Gen.Tables
 import BioCantor.Spec.Bins
 namespace BioCantor.Props.C16
 open BioCantor BioCantor.GenP BioCantor.Gen BioCantor.Spec
@@ -129,6 +130,21 @@ theorem bins_all_is_set (qs qe : Int) (fmt : CoordFmt) : ∃ S, bins qs qe fmt f
   simp only [Bool.false_eq_true, if_false]
   repeat' split
   all_goals exact ⟨_, rfl⟩
+
+/-- T3 (syntactic tie of the call sites, regenerated from source): every interval class stores
+    `bins(<its start>, <its end>, fmt='bed')` at construction, the only other call is the query set in
+    `_query_by_position`, and that set is only computed under `completely_within and start and end`. -/
+theorem call_sites :
+    (binCallSites.map (fun s => (s.2.1, s.2.2))) =
+      [("AnnotationCollection.__init__".toList, "self.start, self.end, fmt='bed'".toList),
+       ("AnnotationCollection._query_by_position".toList, "start, end, fmt='bed', one=False".toList),
+       ("FeatureInterval.__init__".toList, "self.start, self.end, fmt='bed'".toList),
+       ("FeatureIntervalCollection.__init__".toList, "self.start, self.end, fmt='bed'".toList),
+       ("GeneInterval.__init__".toList, "self.start, self.end, fmt='bed'".toList),
+       ("TranscriptInterval.__init__".toList, "self.start, self.end, fmt='bed'".toList),
+       ("VariantInterval.__init__".toList, "start, end, fmt='bed'".toList)]
+    ∧ binPrefilterGuard = "completely_within and start and end".toList := by
+  decide
 
 -- non-vacuity / regression witnesses (F-C16a, F-C16b are repaired in /repo; these pin the repaired behaviour)
 example : bins 5 10 .bed true = .ok (.one 4681) := by rfl
